@@ -12,7 +12,7 @@ for line in open(path):
     elif line.startswith("bin "):
         binname = line.split()[1]
 bdir = os.path.join(HERE, "build", "replay")
-exe = os.path.join(bdir, "%s_r%s" % (binname, ring)) if binname == "mcx" else os.path.join(bdir, binname)
+exe = os.path.join(bdir, "%s_r%s" % (binname, ring))
 r = subprocess.run(["make", "-s", "-C", HERE, "B=" + bdir, exe])
 if r.returncode:
     sys.exit(2)
